@@ -1347,6 +1347,259 @@ theorem apply_matrix_nurbs_model {X : Type} (F : Func K) (A : List (List K)) (m 
   rw [div_eq_mul_inv]; ring
 
 
+/-! ### line_segment, identity, unit_cube, cylinderize, quarter_annulus (polar), disk assembly -/
+
+omit [Field K] in
+theorem getD_flatMap_list {β γ : Type} (d : γ) (d0 : β) (f : β → List γ) (L : Nat) (hL : ∀ x, (f x).length = L) :
+    ∀ (l : List β) (k b : Nat), k < l.length → b < L →
+      (l.flatMap f).getD (k * L + b) d = (f (l.getD k d0)).getD b d
+  | [], k, b, hk, _ => by simp at hk
+  | x :: l, 0, b, _, hb => by
+    simp only [List.flatMap_cons, Nat.zero_mul, Nat.zero_add, List.getD_eq_getElem?_getD]
+    rw [List.getElem?_append_left (by rw [hL]; exact hb)]
+    simp
+  | x :: l, k + 1, b, hk, hb => by
+    have ih := getD_flatMap_list d d0 f L hL l k b (by simpa using hk) hb
+    simp only [List.flatMap_cons, List.getD_eq_getElem?_getD] at ih ⊢
+    have hge : L ≤ (k + 1) * L + b := by rw [Nat.add_mul, Nat.one_mul]; omega
+    rw [List.getElem?_append_right (by rw [hL]; exact hge)]
+    rw [hL, show (k + 1) * L + b - L = k * L + b by
+      rw [Nat.add_mul, Nat.one_mul]; omega]
+    simpa using ih
+
+/-- entries of `line_segment(x0, x1, intervals)`: `coeffs[k] = (1-S[k])*x0 + S[k]*x1` -/
+theorem lineSegment_at (x0 x1 S : List K) (k b : Nat) (hk : k < S.length) (hb : b < x0.length)
+    (hx : x1.length = x0.length) :
+    (lineSegment x0 x1 S).at (k * x0.length + b)
+      = (1 - S.getD k 0) * x0.getD b 0 + S.getD k 0 * x1.getD b 0 := by
+  unfold lineSegment Func.at
+  simp only
+  rw [getD_flatMap_list 0 0 _ x0.length (by intro s; simp [hx]) S k b hk hb]
+  simp [List.getD_eq_getElem?_getD, hb, hx ▸ hb]
+
+/-- **line_segment**: if the linear B-splines at the parameter sum to one and reproduce the
+breakpoint parameters (`Σ_k N_k S_k = t`: linear precision — on `make_knots(1, a, b, n)` this is
+`t = (u-a)/(b-a)`), the curve is `(1-t)·x0 + t·x1`, the line between `x0` and `x1`. -/
+theorem line_segment_law (x0 x1 S : List K) (r : Nat → K) (t : K) (b : Nat)
+    (hb : b < x0.length) (hx : x1.length = x0.length)
+    (hpu : sumTo S.length r = 1) (hlin : sumTo S.length (fun k => r k * S.getD k 0) = t) :
+    contract (lineSegment x0 x1 S).at x0.length b [(S.length, r)] 0
+      = (1 - t) * x0.getD b 0 + t * x1.getD b 0 := by
+  simp only [contract, Nat.zero_mul, Nat.zero_add]
+  rw [sumTo_congr (fun k hk => by rw [lineSegment_at x0 x1 S k b hk hb hx])]
+  have : ∀ k, r k * ((1 - S.getD k 0) * x0.getD b 0 + S.getD k 0 * x1.getD b 0)
+      = r k * x0.getD b 0 + (r k * S.getD k 0) * (x1.getD b 0 - x0.getD b 0) := by intro k; ring
+  rw [sumTo_congr (fun k _ => this k), sumTo_add, sumTo_mul_right, sumTo_mul_right, hpu, hlin]
+  ring
+
+/-- **identity(extents), one axis**: `line_segment(a, b, support=(a, b))` with the hat functions
+`N₀ = (b-u)/(b-a)`, `N₁ = (u-a)/(b-a)` of `make_knots(1, a, b, 1)` is the identity `u ↦ u`. -/
+theorem identity_axis (a b u : K) (hab : b - a ≠ 0) :
+    contract (lineSegment [a] [b] [0, 1]).at 1 0
+      [(2, fun k => if k = 0 then (b - u) / (b - a) else (u - a) / (b - a))] 0 = u := by
+  have := line_segment_law [a] [b] [0, 1] (fun k => if k = 0 then (b - u) / (b - a) else (u - a) / (b - a))
+    ((u - a) / (b - a)) 0 (by simp) rfl
+    (by simp [sumTo]; field_simp; ring) (by simp [sumTo])
+  simp only [List.length_cons, List.length_nil] at this
+  rw [this]
+  simp
+  field_simp
+  ring
+
+/-- **quarter_annulus = polar map**: the premultiplied numerator is `radius(x) ·` (numerator of the
+unit quarter arc in `y`) and the weight function is the arc's weight function: the map is
+`(x, y) ↦ (L₀r₁ + L₁r₂) · arc(y)`, i.e. polar coordinates restricted to `[r₁, r₂] × [0, π/2]`. -/
+theorem quarter_annulus_polar (r1 r2 w L0 L1 b0 b1 b2 : K) (hL : L0 + L1 = 1) :
+    (L0 * (b0 * (r1 * 1) + b1 * (r1 * w) + b2 * (0 * 1)) + L1 * (b0 * (r2 * 1) + b1 * (r2 * w) + b2 * (0 * 1))
+        = (L0 * r1 + L1 * r2) * (b0 * 1 + b1 * w + b2 * 0)) ∧
+    (L0 * (b0 * (0 * 1) + b1 * (r1 * w) + b2 * (r1 * 1)) + L1 * (b0 * (0 * 1) + b1 * (r2 * w) + b2 * (r2 * 1))
+        = (L0 * r1 + L1 * r2) * (b0 * 0 + b1 * w + b2 * 1)) ∧
+    (L0 * (b0 * 1 + b1 * w + b2 * 1) + L1 * (b0 * 1 + b1 * w + b2 * 1) = b0 * 1 + b1 * w + b2 * 1) := by
+  refine ⟨by ring, by ring, ?_⟩
+  linear_combination (b0 * 1 + b1 * w + b2 * 1) * hL
+
+
+omit [Field K] in
+theorem foldl_replicate_succ {β γ : Type} (f : γ → β → γ) (a : γ) (x : β) (k : Nat) :
+    (List.replicate (k + 1) x).foldl f a = f ((List.replicate k x).foldl f a) x := by
+  rw [List.replicate_succ', List.foldl_append]; rfl
+
+theorem unitCube_one (S : List K) : unitCube 1 S = lineSegment [0] [1] S := rfl
+
+theorem unitCube_succ (d : Nat) (S : List K) :
+    unitCube (d + 2) S = bspTensor (unitCube (d + 1) S) (lineSegment [0] [1] S) := by
+  unfold unitCube reduceTensor
+  simp only [List.replicate_succ (n := d + 1)]
+  rw [List.replicate_succ (n := d)]
+  exact foldl_replicate_succ bspTensor _ _ d
+
+theorem unitCube_shape (S : List K) : ∀ d, (unitCube (d + 1) S).dims = List.replicate (d + 1) S.length ∧
+    (unitCube (d + 1) S).ncomp = d + 1
+  | 0 => by simp [unitCube_one, lineSegment, Func.ncomp, Index.prod]
+  | d + 1 => by
+    obtain ⟨h1, h2⟩ := unitCube_shape S d
+    rw [unitCube_succ]
+    constructor
+    · simp only [bspTensor, h1, lineSegment]
+      rw [List.replicate_succ' (n := d + 1)]
+    · simp only [bspTensor, Func.ncomp, Index.prod, List.foldr_cons, List.foldr_nil, Nat.mul_one]
+      have : (lineSegment [0] [1] S : Func K).ncomp = 1 := by simp [lineSegment, Func.ncomp, Index.prod]
+      simp only [Func.ncomp, Index.prod] at h2 this
+      rw [h2, this]
+
+theorem pu_rows_replicate {X : Type} (B : Nat → X → Info K) (n : Nat)
+    (hpu : ∀ i y, sumTo n ((B i y).dense 0) = 1) :
+    ∀ (m i : Nat) (ys : List X), PU (rows B i (List.replicate m n) ys (List.replicate m 0))
+  | 0, i, ys => by intro p hp; simp [rows] at hp
+  | m + 1, i, [] => by intro p hp; simp [rows, List.replicate_succ] at hp
+  | m + 1, i, y :: ys => by
+    intro p hp
+    simp only [List.replicate_succ, rows, List.mem_cons] at hp
+    rcases hp with rfl | hp
+    · exact hpu i y
+    · exact pu_rows_replicate B n hpu m (i + 1) ys p hp
+
+/-- **unit_cube / unit_square (any dimension, any number of intervals)**:
+`reduce(tensor_product, dim * (line_segment(0, 1, intervals=n),))`.  If on every axis the linear
+B-splines at the evaluation coordinate sum to one and have linear precision with value `τ i y`
+(`Σ_k N_k(y)·S_k = τ`; for `make_knots(1, 0, 1, n)` and `S = linspace(0,1,n+1)`, `τ` is the
+coordinate itself), then component `b` of the map is `τ` of coefficient axis `dim-1-b`: the map
+is the identity in xyz order (component 0 = x = last coefficient axis). -/
+theorem unit_cube_model {X : Type} [Inhabited X] (S : List K) (B : Nat → X → Info K) (τ : Nat → X → K)
+    (hpu : ∀ i y, sumTo S.length ((B i y).dense 0) = 1)
+    (hlin : ∀ i y, sumTo S.length (fun k => (B i y).dense 0 k * S.getD k 0) = τ i y) :
+    ∀ (d : Nat) (ys : List X), ys.length = d + 1 → ∀ b, b ≤ d →
+      (unitCube (d + 1) S).toSpl.gridVal B ys b = τ (d - b) (ys.getD (d - b) default)
+  | 0, ys, hl, b, hb => by
+    obtain ⟨y, rfl⟩ : ∃ y, ys = [y] := by
+      match ys, hl with
+      | [y], _ => exact ⟨y, rfl⟩
+    have hb0 : b = 0 := by omega
+    subst hb0
+    show contract (lineSegment [0] [1] S).at (lineSegment [0] [1] S : Func K).ncomp 0
+      (rows B 0 (lineSegment [0] [1] S : Func K).dims [y] (List.replicate (lineSegment [0] [1] S : Func K).dims.length 0)) 0 = _
+    have hnc : (lineSegment [0] [1] S : Func K).ncomp = 1 := by simp [lineSegment, Func.ncomp, Index.prod]
+    have hdims : (lineSegment [0] [1] S : Func K).dims = [S.length] := rfl
+    rw [hnc, hdims]
+    simp only [List.length_cons, List.length_nil, List.replicate, rows]
+    have := line_segment_law [0] [1] S ((B 0 y).dense 0) (τ 0 y) 0 (by simp) rfl (hpu 0 y) (hlin 0 y)
+    simp only [List.length_cons, List.length_nil] at this
+    rw [this]
+    simp
+  | d + 1, ys, hl, b, hb => by
+    obtain ⟨ys1, y, rfl⟩ : ∃ ys1 y, ys = ys1 ++ [y] := by
+      rcases List.eq_nil_or_concat ys with h | ⟨l, a, h⟩
+      · rw [h] at hl; simp at hl
+      · exact ⟨l, a, by rw [h, List.concat_eq_append]⟩
+    have hl1 : ys1.length = d + 1 := by simpa using hl
+    obtain ⟨hdims, hncomp⟩ := unitCube_shape S d
+    have hLnc : (lineSegment [0] [1] S : Func K).ncomp = 1 := by simp [lineSegment, Func.ncomp, Index.prod]
+    have hLdims : (lineSegment [0] [1] S : Func K).dims = [S.length] := rfl
+    have hG1len : (unitCube (d + 1) S).dims.length = d + 1 := by rw [hdims]; simp
+    rw [unitCube_succ]
+    have key := tensor_product_model (unitCube (d + 1) S) (lineSegment [0] [1] S) B ys1 [y] b
+      (by rw [hG1len]; exact hl1) (by rw [hLdims]; rfl) (by rw [hncomp, hLnc]; omega)
+      (by rw [hdims, List.length_replicate]; exact pu_rows_replicate B S.length hpu (d + 1) 0 ys1)
+      (by
+        rw [hLdims]
+        intro p hp
+        simp only [List.length_cons, List.length_nil, List.replicate, rows, List.mem_singleton] at hp
+        subst hp
+        exact hpu _ y)
+    rw [key, hLnc]
+    by_cases hb0 : b < 1
+    · have : b = 0 := by omega
+      subst this
+      rw [if_pos hb0, hLdims, hG1len]
+      simp only [List.length_cons, List.length_nil, List.replicate, rows]
+      have := line_segment_law [0] [1] S ((B (d + 1) y).dense 0) (τ (d + 1) y) 0 (by simp) rfl
+        (hpu (d + 1) y) (hlin (d + 1) y)
+      simp only [List.length_cons, List.length_nil] at this
+      rw [this]
+      have hget : (ys1 ++ [y]).getD (d + 1 - 0) default = y := by
+        rw [Nat.sub_zero, List.getD_eq_getElem?_getD, List.getElem?_append_right (by omega), hl1]
+        simp
+      rw [hget]
+      simp
+    · rw [if_neg hb0]
+      have ih := unit_cube_model S B τ hpu hlin d ys1 hl1 (b - 1) (by omega)
+      rw [ih]
+      have e : d - (b - 1) = d + 1 - b := by omega
+      rw [e]
+      congr 1
+      rw [List.getD_eq_getElem?_getD, List.getD_eq_getElem?_getD, List.getElem?_append_left (by omega)]
+
+
+/-- **cylinderize / extrusion** (`tensor_product(line_segment(z0, z1, support), self)`), on the
+model's list-level constructor: at the node `yz :: ys` (zyx order: the new axis is the first
+coefficient axis, i.e. the LAST call argument) the first `F.ncomp` components are `F(ys)` and the
+last one is `(1-t)·z0 + t·z1`, `t` the linear-precision parameter of the extrusion axis. -/
+theorem cylinderize_model {X : Type} (F : Func K) (m : Nat) (z0 z1 t : K) (B : Nat → X → Info K)
+    (yz : X) (ys : List X) (b : Nat)
+    (hv : F.vshape = [m]) (hl : ys.length = F.dims.length) (hb : b < m + 1)
+    (hpuz : sumTo 2 ((B 0 yz).dense 0) = 1)
+    (hlin : sumTo 2 (fun k => (B 0 yz).dense 0 k * ([0, 1] : List K).getD k 0) = t)
+    (hpu : PU (rows B 1 F.dims ys (List.replicate F.dims.length 0))) :
+    (F.cylinderize z0 z1).toSpl.gridVal B (yz :: ys) b
+      = if b < m then contract F.at m b (rows B 1 F.dims ys (List.replicate F.dims.length 0)) 0
+        else (1 - t) * z0 + t * z1 := by
+  have hnc : F.ncomp = m := by simp [Func.ncomp, hv, Index.prod]
+  have hAV : F.bspAsVector = F := by simp [Func.bspAsVector, hv]
+  have hLnc : (lineSegment [z0] [z1] [0, 1] : Func K).ncomp = 1 := by simp [lineSegment, Func.ncomp, Index.prod]
+  have hLdims : (lineSegment [z0] [z1] [0, 1] : Func K).dims = [2] := rfl
+  unfold Func.cylinderize
+  rw [hAV]
+  have key := tensor_product_model (lineSegment [z0] [z1] [0, 1]) F B [yz] ys b
+    (by rw [hLdims]; rfl) hl (by rw [hLnc, hnc]; omega)
+    (by
+      rw [hLdims]
+      intro p hp
+      simp only [List.length_cons, List.length_nil, List.replicate, rows, List.mem_singleton] at hp
+      subst hp
+      exact hpuz)
+    (by rw [hLdims]; exact hpu)
+  rw [show yz :: ys = [yz] ++ ys from rfl, key, hnc, hLdims]
+  by_cases hbm : b < m
+  · simp only [hbm, if_true, List.length_cons, List.length_nil]
+  · have hbe : b - m = 0 := by omega
+    rw [if_neg hbm, if_neg hbm, hbe]
+    show contract (lineSegment [z0] [z1] [0, 1]).at (lineSegment [z0] [z1] [0, 1] : Func K).ncomp 0
+      (rows B 0 (lineSegment [z0] [z1] [0, 1] : Func K).dims [yz]
+        (List.replicate (lineSegment [z0] [z1] [0, 1] : Func K).dims.length 0)) 0 = _
+    rw [hLnc, hLdims]
+    simp only [List.length_cons, List.length_nil, List.replicate, rows]
+    have := line_segment_law [z0] [z1] [0, 1] ((B 0 yz).dense 0) t 0 (by simp) rfl hpuz hlin
+    simp only [List.length_cons, List.length_nil] at this
+    rw [this]
+    simp
+
+
+/-- **disk(): assembly.**  The four sides of the assembled 3×3 NURBS patch (coefficient slices
+`boundary(axis, side)`; by `boundary_model` these are the restrictions of the map to the sides)
+are: bottom and top curve as given, left/right curve with their end control points replaced by
+the corner points of bottom/top (the later assignments in `_combine_boundary_curves` win); every
+coordinate is scaled by `r`, weights are kept. -/
+theorem disk_sides (r half : K)
+    (b0x b0y b0w b1x b1y b1w b2x b2y b2w t0x t0y t0w t1x t1y t1w t2x t2y t2w : K)
+    (l0x l0y l0w l1x l1y l1w l2x l2y l2w r0x r0y r0w r1x r1y r1w r2x r2y r2w : K) :
+    let D := diskAssemble [b0x, b0y, b0w, b1x, b1y, b1w, b2x, b2y, b2w] [t0x, t0y, t0w, t1x, t1y, t1w, t2x, t2y, t2w]
+      [l0x, l0y, l0w, l1x, l1y, l1w, l2x, l2y, l2w] [r0x, r0y, r0w, r1x, r1y, r1w, r2x, r2y, r2w] half r true
+    (D.boundary 0 0).c = [r * b0x, r * b0y, b0w, r * b1x, r * b1y, b1w, r * b2x, r * b2y, b2w] ∧
+    (D.boundary 0 1).c = [r * t0x, r * t0y, t0w, r * t1x, r * t1y, t1w, r * t2x, r * t2y, t2w] ∧
+    (D.boundary 1 0).c = [r * b0x, r * b0y, b0w, r * l1x, r * l1y, l1w, r * t0x, r * t0y, t0w] ∧
+    (D.boundary 1 1).c = [r * b2x, r * b2y, b2w, r * r1x, r * r1y, r1w, r * t2x, r * t2y, t2w] ∧
+    D.at 12 = r * 0 ∧ D.at 13 = r * 0 ∧ D.at 14 = half := by
+  intro D
+  refine ⟨?_, ?_, ?_, ?_, ?_, ?_, ?_⟩ <;>
+    simp [D, diskAssemble, Func.boundary, Func.at, sliceIndex, Index.prod, Func.ncomp, List.range_succ]
+
+/-- scaling the premultiplied coordinates by `r` (weights kept) scales the radius: a point of the
+unit-circle arc `x² + y² = w²` (premultiplied) becomes a point with `(rx)² + (ry)² = r²w²` -/
+theorem disk_scale_radius (r x y w : K) (h : x ^ 2 + y ^ 2 = w ^ 2) :
+    (r * x) ^ 2 + (r * y) ^ 2 = r ^ 2 * w ^ 2 := by
+  linear_combination r ^ 2 * h
+
+
 /-! ## 4. circular arcs lie on exact circles -/
 
 /-- **one rational quadratic segment.**  Control points (premultiplied, as coded)
